@@ -132,11 +132,8 @@ class KindModel:
                             r = True if K <= self.ncore else None
                         else:
                             r = False if K <= self.ncore else None
-            elif t0 == "tagdyn":
-                if k.startswith("i:"):
-                    r = None
-                else:
-                    r = None
+            elif t0 in ("tagdyn", "tagsame"):
+                r = None
             elif t0 == "eqconst":
                 ks = self.kinds_of_const(test[1])
                 if ks is None:
@@ -211,6 +208,10 @@ def classify_test(fn, n):
                         return (x, ("tag", "==", kv), False)
                     return (x, ("tag", oo, kv), True)
                 if oo in ("==", "!="):
+                    rn = fn.nodes[r]
+                    if rn["k"] == "mem" and rn["o"] == "tag" and rn.get("ar"):
+                        # same tag as another object: nothing is learnt about which tag
+                        return (x, ("tagsame",), oo == "==")
                     return (x, ("tagdyn", "=="), oo == "==")
                 return None
         if o in ("==", "!="):
@@ -234,6 +235,9 @@ class KindAnalysis:
         self.m = model
         self.fn = fn
         self.param_kinds = param_kinds      # var id -> kindset
+        self.sticky = set()                 # var ids that stay tracked: an unknown assignment makes them U again
+        self.probes = {}                    # node -> expression node: record kinds of the expression there
+        self.probe_results = {}             # node -> kindset or None
         self.obligations = []               # (node, root text, required set, have set, ok, what)
         self.calls_out = []                 # (call node, callee name, {arg index: kindset})
         self._refs = {}
@@ -343,6 +347,10 @@ class KindAnalysis:
         for e in b.elems:
             nd = fn.nodes[e]
             k = nd["k"]
+            if self._record and e in self.probes:
+                ks = self.user_origin(self.probes[e], state)
+                old = self.probe_results.get(e)
+                self.probe_results[e] = ks if old is None or ks is None else (old | ks)
             if k == "mem" and nd.get("ar"):
                 self.check_access(e, state)
             elif k == "cast":
@@ -366,6 +374,8 @@ class KindAnalysis:
                     ks = None
                     if fn.var_type(vid) == tables.SEXP_T:
                         ks = self.user_origin(nd["c"][1], state)
+                        if ks is None and vid in self.sticky:
+                            ks = m.U
                     self.kill_var(state, vid)
                     if ks is not None:
                         name = fn.vars[vid]["n"]
